@@ -318,7 +318,7 @@ dispatch_data_t
 dispatch_data_create_concat(dispatch_data_t dd1, dispatch_data_t dd2)
 {
 	dispatch_data_t data;
-	size_t n;
+	size_t n, size;
 
 	if (!dd1->size) {
 		_dispatch_data_retain(dd2);
@@ -333,8 +333,11 @@ dispatch_data_create_concat(dispatch_data_t dd1, dispatch_data_t dd2)
 			_dispatch_data_num_records(dd2), &n)) {
 		return DISPATCH_OUT_OF_MEMORY;
 	}
+	if (os_add_overflow(dd1->size, dd2->size, &size)) {
+		return DISPATCH_OUT_OF_MEMORY;
+	}
 	data = _dispatch_data_alloc(n, 0);
-	data->size = dd1->size + dd2->size;
+	data->size = size;
 	// Copy the constituent records into the newly created data object
 	// Reference leaf objects as sub-objects
 	if (_dispatch_data_leaf(dd1)) {
